@@ -1,5 +1,5 @@
 import Gtree.Lemmas.HeapBuilder
-import Gtree.Lemmas.HeapGrower
+import Gtree.Lemmas.HeapRepr
 import Gtree.Model.Generate
 /-
   The step of the tree builder on the translated code (`stack.dfs`, `dfs_spec`) refines the step of the model's
